@@ -15,6 +15,9 @@ use std::time::Instant;
 use rotonda::verif::manager as vm;
 use verif_harness::{join, parse_args, rng::Rng, Recorder};
 
+#[path = "../c13_live.rs"]
+mod live;
+
 #[derive(Clone, Debug, PartialEq)]
 enum V { S(u32), Bad }
 #[derive(Clone, Debug, PartialEq)]
@@ -339,14 +342,19 @@ impl Gen {
 fn main() {
     let args = parse_args();
     let t0 = Instant::now();
+    if args.rest.iter().any(|a| a == "--live-debug") { live::debug_main(); return; }
     std::panic::set_hook(Box::new(|_| {}));
-    let mut rec = Recorder::new("reload sequences (1-6 loads) of generated TOML documents (valid component graphs over the five unit and three target types incl. vRIB shorthand; operator edits between loads; malformed documents: not TOML, unknown/missing type, ill-typed source(s), unresolved links, uncompilable roto script) into the real ConfigFile::new -> Manager::load -> prepare -> spawn_internal with recording closures; non-trivial = a sequence of >= 2 loads with at least one successful load that produced actions; distinct = distinct case lines");
+    let mut rec = Recorder::new("(a) reload sequences (1-6 loads) of generated TOML documents (valid component graphs over the five unit and three target types incl. vRIB shorthand; operator edits between loads; malformed documents: not TOML, unknown/missing type, ill-typed source(s), unresolved links, uncompilable roto script) into the real ConfigFile::new -> Manager::load -> prepare -> spawn_internal with recording closures; non-trivial = a sequence of >= 2 loads with at least one successful load that produced actions. (b) `L|` cases: a really spawned pipeline (bmp-tcp-in x1-2 -> rib -> null-out on a multi-threaded runtime), real BMP/TCP router sessions, announcements / withdrawals, reloads of edited files (rib limits / path / sources, listen address, added or removed units and targets, malformed files), observed after every event through the real HTTP handler, the sockets and /proc/net/tcp; sequential, racing (updates written while the reload runs: sampled interleavings) and forced-window cases; non-trivial = a successful reload while a router session existed; distinct = distinct case lines");
     let rt = tokio::runtime::Builder::new_current_thread().enable_all().build().unwrap();
     let dir = std::env::temp_dir().join(format!("verif-c13-{}", std::process::id()));
     std::fs::create_dir_all(&dir).unwrap();
 
     if let Some(path) = &args.replay {
-        for line in verif_harness::replay_cases(path) {
+        let lines = verif_harness::replay_cases(path);
+        let mut lrng = Rng::new(args.seed ^ 0x13);
+        let flags = if lines.iter().any(|l| l.starts_with("L|")) { Some(live::witnesses(&dir, &mut lrng, &mut rec, false)) } else { None };
+        for line in lines {
+            if line.starts_with("L|") { live::replay(&dir, &line, flags.unwrap(), &mut lrng, &mut rec); continue; }
             let docs: Vec<Doc> = line.split('/').map(parse_step).collect();
             run_sequence(&mut rec, &rt, &dir, &docs, "replay");
         }
@@ -398,6 +406,14 @@ fn main() {
         }
         run_sequence(&mut rec, &rt, &dir, &docs, "generated");
     }
+    // ---- the executed pipeline (see c13_live.rs): real units, real BMP sessions, reloads under traffic
+    let mut lrng = Rng::new(args.seed ^ 0x13);
+    let flags = live::witnesses(&dir, &mut lrng, &mut rec, true);
+    rec.variant("apipath", if flags.path_ignored { "as-written" } else { "repaired" });
+    rec.variant("clonesender", if flags.clone_stale { "as-written" } else { "repaired" });
+    rec.variant("clonequeue", if flags.queue_wedge { "as-written" } else { "repaired" });
+    let (n_seq, n_race, secs) = if args.thorough { (2500, 5000, 300) } else { (110, 260, 40) };
+    live::streams(&dir, flags, &mut lrng, &mut rec, n_seq, n_race, Instant::now() + std::time::Duration::from_secs(secs));
     rec.finish(&args, t0.elapsed().as_secs_f64());
     let _ = std::fs::remove_dir_all(&dir);
 }
